@@ -22,7 +22,9 @@ Theorems (Property.v) — all at full strength since the fix commits 0346f88, fc
                                    ONNX call (both are section variables that may raise); C14_analysis_outcome
   (b)+(c) per modelled pass: C14_flag_sound_{clear,dce,toposort,inits_inputs} (modified=False -> state unchanged) and
       C14_converges_{clear,dce,toposort,inits_inputs} (dce: explicit measure nodes+initializers+untrimmed nodes,
-      bound measure+1; the others idempotent: second round reports False and changes nothing)
+      bound measure+1; the others idempotent: second round reports False and changes nothing).
+      inits_inputs: AddInitializersToInputsPass touches the main graph only (fix d64e021; Model.add_pass, subgraphs
+      proved untouched), RemoveInitializersFromInputsPass every graph (Model.rm_pass)
   history: C14_history_before_fixes — the models of the code BEFORE the fix commits violate (e)/(b) on six
       witnesses and the current models do not (the witnesses are corpus cases replayed on the implementation).
   Print Assumptions: every theorem closed under the global context.  ck.level = "proof".
@@ -482,6 +484,7 @@ def c_dgraph(a) -> str:
 
 
 def abs_io(model, reg) -> list:
+    assert next(iter(model.graphs())) is model.graph      # Model.add_pass: the head of the list is the main graph
     return [([reg(v) + 1 for v in g.inputs], [reg(v) + 1 for v in g.initializers.values()]) for g in model.graphs()]
 
 
